@@ -484,6 +484,99 @@ def run(ctx, repo, tier):
         else:
             ctx.inconclusive("ORD", "C20.legend.order", "accumulation of the legend names not recognised", gc.where,
                              witness=src(app[0])[:80] if app else "no append")
+    # every line of the header is offered to the legend scan: the loop over the lines runs over the whole file handle, not over a slice
+    # of it (the property's header grammar puts the '@ s<i> legend' lines anywhere after the '#' lines, and there may be fewer than 13 of those)
+    def _handles():
+        hs = set()
+        for n in ast.walk(gc.node):
+            if isinstance(n, ast.With):
+                for it in n.items:
+                    if isinstance(it.optional_vars, ast.Name):
+                        hs.add(it.optional_vars.id)
+            if isinstance(n, ast.Assign) and len(n.targets) == 1 and isinstance(n.targets[0], ast.Name) and isinstance(n.value, ast.Call) and \
+                    isinstance(n.value.func, ast.Name) and n.value.func.id == "open":
+                hs.add(n.targets[0].id)
+        return hs
+    handles = _handles()
+    ldefs = {}
+    for n in ast.walk(gc.node):
+        if isinstance(n, ast.Assign) and len(n.targets) == 1 and isinstance(n.targets[0], ast.Name):
+            ldefs.setdefault(n.targets[0].id, []).append(n.value)
+
+    def _all_lines(e, depth=0):
+        """True: e yields every line of the file; (False, why): e yields a proper part of them; None: not recognised"""
+        if depth > 6:
+            return None
+        if isinstance(e, ast.Name):
+            if e.id in handles:
+                return True
+            if len(ldefs.get(e.id, [])) == 1:
+                return _all_lines(ldefs[e.id][0], depth + 1)
+            return None
+        if isinstance(e, ast.Call):
+            f_ = e.func
+            if isinstance(f_, ast.Name) and f_.id == "open":
+                return True
+            if isinstance(f_, ast.Name) and f_.id in ("enumerate", "iter", "list", "tuple") and e.args:
+                return _all_lines(e.args[0], depth + 1)
+            if (isinstance(f_, ast.Name) and f_.id == "islice") or (isinstance(f_, ast.Attribute) and f_.attr == "islice"):
+                if e.args and _all_lines(e.args[0], depth + 1) is True:
+                    b = [a_.value if isinstance(a_, ast.Constant) else "?" for a_ in e.args[1:]]
+                    if len(b) >= 2 and b[0] in (0, None) and b[1] is None:
+                        return True
+                    if "?" in b[:2]:
+                        return None
+                    return (False, f"islice bounds {b}")
+                return None
+            if isinstance(f_, ast.Attribute) and f_.attr == "readlines" and not e.args:
+                return _all_lines(f_.value, depth + 1)
+            if isinstance(f_, ast.Attribute) and f_.attr in ("splitlines", "split") and isinstance(f_.value, ast.Call) and \
+                    isinstance(f_.value.func, ast.Attribute) and f_.value.func.attr in ("read", "read_text") and not f_.value.args:
+                if f_.attr == "split" and not (len(e.args) == 1 and isinstance(e.args[0], ast.Constant) and e.args[0].value == "\n"):
+                    return None
+                return True if f_.value.func.attr == "read_text" else _all_lines(f_.value.func.value, depth + 1)
+            return None
+        if isinstance(e, ast.Subscript) and isinstance(e.slice, ast.Slice):
+            base = _all_lines(e.value, depth + 1)
+            if base is not True:
+                return None
+            lo_, hi_, st_ = e.slice.lower, e.slice.upper, e.slice.step
+            cv = lambda x: None if x is None else (x.value if isinstance(x, ast.Constant) else "?")
+            b = [cv(lo_), cv(hi_), cv(st_)]
+            if b[0] in (None, 0) and b[1] is None and b[2] in (None, 1):
+                return True
+            if "?" in b:
+                return None
+            return (False, f"slice bounds {b}")
+        return None
+
+    def _tnames(t):
+        return {x.id for x in ast.walk(t) if isinstance(x, ast.Name)}
+    line_loops = [n for n in ast.walk(gc.node) if isinstance(n, ast.For) and any(
+        isinstance(c_, ast.Call) and isinstance(c_.func, ast.Attribute) and c_.func.attr == "startswith" and isinstance(c_.func.value, ast.Name)
+        and c_.func.value.id in _tnames(n.target) for c_ in ast.walk(n))]
+    line_loops = [n for n in line_loops if any("legend" in src(c_) for c_ in ast.walk(n) if isinstance(c_, (ast.JoinedStr, ast.Constant)))
+                  or any(isinstance(c_, ast.Call) and isinstance(c_.func, ast.Attribute) and c_.func.attr == "append" for c_ in ast.walk(n))]
+    if line_loops:
+        ctx.instance("PAIRIO")
+        ll = sorted(line_loops, key=lambda x: x.lineno)[0]
+        v_ = _all_lines(ll.iter)
+        # lines consumed from the handle before the loop starts are not offered to the scan either
+        pre = [c_ for c_ in ast.walk(gc.node) if isinstance(c_, ast.Call) and getattr(c_, "lineno", 10**9) < ll.lineno and (
+            (isinstance(c_.func, ast.Name) and c_.func.id == "next" and c_.args and isinstance(c_.args[0], ast.Name) and c_.args[0].id in handles) or
+            (isinstance(c_.func, ast.Attribute) and c_.func.attr in ("readline", "seek") and isinstance(c_.func.value, ast.Name) and
+             c_.func.value.id in handles and not (c_.func.attr == "seek" and c_.args and isinstance(c_.args[0], ast.Constant) and c_.args[0].value == 0)))]
+        if pre:
+            ctx.violate("PAIRIO", "C20.legend.scope", "lines are consumed from the file before the legend scan starts: a legend among them is never seen "
+                        "(the header may have fewer '#' lines than are skipped)", gc.where, src(pre[0])[:100],
+                        witness="a file with two '#' lines and its legends on the following lines loses those column names")
+        elif v_ is True:
+            ctx.ok("PAIRIO", "C20.legend.scope", "the legend scan is offered every line of the file from the first one", gc.where, src(ll.iter)[:100])
+        elif isinstance(v_, tuple):
+            ctx.violate("PAIRIO", "C20.legend.scope", "the legend scan runs over a part of the file's lines only: legends outside it are silently "
+                        "missed and the remaining names are attached to the wrong columns", gc.where, src(ll.iter)[:100], witness=v_[1])
+        else:
+            ctx.inconclusive("PAIRIO", "C20.legend.scope", "source of the lines offered to the legend scan not recognised", gc.where, src(ll.iter)[:100])
     # one pass over the file: a second `for line in f` after a first loop that ended with `break` never sees the line that ended the
     # first loop (the iterator has already consumed it)
     seq_loops = {}
